@@ -151,7 +151,7 @@ func (k *hLogKey) mac(msg []byte) []byte {
 	return h[:12]
 }
 func (k *hLogKey) Sign(msg []byte) ([]byte, error) { return k.mac(msg), nil }
-func (k *hLogKey) Verify(msg, sig []byte) bool      { return bytes.Equal(sig, k.mac(msg)) }
+func (k *hLogKey) Verify(msg, sig []byte) bool     { return bytes.Equal(sig, k.mac(msg)) }
 
 // ---- stubs ----
 
